@@ -1,10 +1,298 @@
-(** C14 - Reforms and system copies leave the system they derive from untouched.
-    Only statements here; proofs are in proofs/SystemsProofs.v. *)
-From Coq Require Import ZArith List Bool Arith.
-From Verif Require Import Base Obs Cal Period Param Engine EngineProofs Systems SystemsProofs.
+(** C14 - Reforms and system copies leave the system they derive from untouched; the derived
+    system computes the original rules with the declared changes.
+    Only statements here; proofs are in proofs/SystemsProofs.v.
+
+    Vocabulary (coq/model/Systems.v).  A [world] is the list of systems built so far (the base
+    first) and a heap of entity objects, each bound to the system it resolves variable names
+    in.  [run_dops false w ops] performs derivations: [DClone i] (system.clone()), [DReform i
+    ms] (a Reform subclass of system i whose apply() performs the modifications ms; reforms
+    chain by naming a reform as i), [DMod j m] (modification m of system j in place);
+    [target_of] is the system a derivation modifies in place, if any.  Modifications:
+    [AddVar], [UpdateVar], [ReplaceVar], [Neutralize], [Annualize], [ModifyParams] (the
+    modifier function of a reform), [EditParams] (edits of the tree a copy owns).
+    [to_sys y0 ny s] are the rules of system [s] as the engine runs them (Engine.v); [sem] is
+    the engine's meaning of a request, [calc] / [run] the machine (C01).
+    [entities_bound w]: every entity object of system i is bound to system i - true of
+    [initial s] and kept by every derivation.
+    Observations of system i: [look] (the variable table through the system and through
+    each of its entities - the path population -> entity -> system -, and the parameters at
+    given dates), [eval_fresh] / [eval_on] (answers of the machine on a new / a long-lived
+    simulation), [sem_in] (the meaning of a request). *)
+From Coq Require Import ZArith List Bool Arith String.
+From Verif Require Import Base Obs Cal Period Param ParamProofs Engine EngineProofs Systems SystemsProofs.
 Import ListNotations.
+Open Scope nat_scope.
+Local Notation length := List.length.
+
+(** ** Sentence 1: the source is untouched *)
+
+(** For every sequence of derivations and modifications none of which modifies system i in
+    place: system i is the same value as before (variable table, parameters), its entities
+    still resolve names in system i, and every observation of it - definitions through the
+    system and through the entities, parameters at any dates, the machine's answers on a new
+    or on an existing simulation, the meaning of any request - is what it was. *)
+Theorem derivation_frame : forall os w i e,
+  entities_bound w -> nth_error (w_entries w) i = Some e ->
+  (forall o, In o os -> target_of o <> Some i) ->
+  let w' := run_dops false w os in
+  nth_error (w_entries w') i = Some e
+  /\ entities_bound w'
+  /\ (forall k id, nth_error (e_ents e) k = Some id -> resolve w' i k = Some i)
+  /\ (forall nnames ds, look w' i nnames ds = look w i nnames ds)
+  /\ (forall y0 ny pp s rs, eval_on y0 ny w' i pp s rs = eval_on y0 ny w i pp s rs)
+  /\ (forall y0 ny pp inputs rs, eval_fresh y0 ny w' i pp inputs rs = eval_fresh y0 ny w i pp inputs rs)
+  /\ (forall y0 ny pp inp v p, sem_in y0 ny w' i pp inp v p = sem_in y0 ny w i pp inp v p).
+Proof. exact derivation_frame_lemma. Qed.
+Print Assumptions derivation_frame.
+
+Theorem base_world_bound : forall s, entities_bound (initial s).
+Proof. exact initial_bound. Qed.
+Print Assumptions base_world_bound.
 
 (** The base system of a world is the given rule system itself. *)
 Theorem base_is_itself : forall y0 ny sy, to_sys y0 ny (of_sys sy) = sy.
 Proof. exact to_sys_of_sys. Qed.
 Print Assumptions base_is_itself.
+
+(** Before the repair of F14, clone() shared the entity objects and re-bound them to the
+    copy ([run_dops true]): neutralising a variable of the copy changed what the original's
+    entities show, although no derivation targets the original. *)
+Theorem clone_shares_refuted :
+  let w := initial refuted_sys in
+  (forall o, In o refuted_ops -> target_of o <> Some 0)
+  /\ look (run_dops true w refuted_ops) 0 1 [] <> look w 0 1 []
+  /\ resolve (run_dops true w refuted_ops) 0 0 = Some 1
+  /\ look (run_dops false w refuted_ops) 0 1 [] = look w 0 1 [].
+Proof. exact clone_shares_refuted_lemma. Qed.
+Print Assumptions clone_shares_refuted.
+
+(** ** Sentence 2: the derived system is the original with the declared changes *)
+
+(** A copy starts as the system it was copied from, with entity objects of its own bound to it. *)
+Theorem clone_copies : forall w i e w',
+  nth_error (w_entries w) i = Some e -> apply_dop false w (DClone i) = Ok w' ->
+  exists e', nth_error (w_entries w') (length (w_entries w)) = Some e'
+  /\ e_sys e' = e_sys e /\ e_base e' = e_base e
+  /\ (forall id, In id (e_ents e') -> ~ In id (e_ents e) \/ length (w_heap w) <= id)
+  /\ (forall id, In id (e_ents e') -> nth_error (w_heap w') id = Some (length (w_entries w))).
+Proof. exact clone_copies_lemma. Qed.
+Print Assumptions clone_copies.
+
+(** A modification of variable v leaves every other variable and the parameters as they
+    were; a parameter edit leaves the variables as they were. *)
+Theorem modification_touches_only_its_variable : forall s m s', apply_var_mod s m = Ok s' ->
+  match mod_name m with
+  | Some v => (forall u, u <> v -> nth_error (s_vars s') u = nth_error (s_vars s) u) /\ s_params s' = s_params s
+  | None => s_vars s' = s_vars s
+  end.
+Proof. exact var_mod_rest_lemma. Qed.
+Print Assumptions modification_touches_only_its_variable.
+
+(** update_variable: the attributes the class does not define are the old ones ([decl o old]
+    is o's content when the class defines it, else old); the formulas are exactly the old
+    ones dated before the first new formula, and the new ones. *)
+Theorem update_inherits : forall s v d s' x,
+  nth_error (s_vars s) v = Some x -> apply_var_mod s (UpdateVar v d) = Ok s' ->
+  exists x', nth_error (s_vars s') v = Some x'
+  /\ (forall u, u <> v -> nth_error (s_vars s') u = nth_error (s_vars s) u)
+  /\ s_params s' = s_params s
+  /\ sv_ent x' = decl (d_ent d) (sv_ent x) /\ sv_type x' = decl (d_type d) (sv_type x)
+  /\ sv_unit x' = decl (d_unit d) (sv_unit x) /\ sv_default x' = decl (d_default d) (sv_default x)
+  /\ sv_end x' = match d_end d with Some e => Some e | None => sv_end x end
+  /\ sv_neutral x' = false
+  /\ (forall f, In f (sv_formulas x') <->
+        (In f (sv_formulas x)
+         /\ match d_formulas d with [] => True | (d0, _) :: _ => date_ltb (f_start f) d0 = true end)
+        \/ (f_wrapped f = false /\ In (f_start f, f_body f) (d_formulas d))).
+Proof. exact update_inherits_lemma. Qed.
+Print Assumptions update_inherits.
+
+(** neutralize_variable: the meaning of the variable is its default whatever the inputs, so is
+    the machine's answer in any state, and set_input on it changes nothing. *)
+Theorem neutralised_spec : forall y0 ny s v x s',
+  nth_error (s_vars s) v = Some x -> apply_var_mod s (Neutralize v) = Ok s' ->
+  let sy' := to_sys y0 ny s' in
+  exists x', nth_error (vars sy') v = Some x'
+  /\ v_default x' = sv_default x /\ v_unit x' = sv_unit x /\ v_ent x' = sv_ent x /\ v_neutral x' = true
+  /\ (forall u, u <> v -> nth_error (s_vars s') u = nth_error (s_vars s) u)
+  /\ s_params s' = s_params s
+  /\ (forall pp inp p, sem sy' pp inp v p =
+        match check_consistency x' p with Err e => Err e | Ok _ => Ok (default_array pp x') end)
+  /\ (forall pp st fuel p, snd (calc (S fuel) sy' pp st v p) =
+        match check_consistency x' p with Err e => Err e | Ok _ => Ok (default_array pp x') end)
+  /\ (forall pp st p a, fst (set_input sy' pp st v p a) = st).
+Proof. exact neutralised_spec_lemma. Qed.
+Print Assumptions neutralised_spec.
+
+(** annualize_variable, on the rules.  System s' is s with month variable v annualised; s is
+    ranked (C01) and v is not already annualised or neutralised.  For every year y of the
+    window and every month m of it for which no input is given: the meaning of v at that month
+    in s' is the meaning of v at January y in the ORIGINAL system s (cast to v's type, which
+    changes nothing for a value of that type).  [pick .. = Some _]: some formula of v is in
+    force in January; the end date, if any, is not before the month. *)
+Theorem annualised_spec : forall y0 ny s v x s' k m e w pp inp,
+  nth_error (s_vars s) v = Some x -> apply_var_mod s (Annualize v) = Ok s' ->
+  ranked (to_sys y0 ny s) = true -> 1 <= s_loops s ->
+  sv_unit x = Month -> has_wrapped (sv_formulas x) = false -> sv_neutral x = false ->
+  (1 <= y0)%Z -> k < ny -> (2 <= m <= 12)%Z ->
+  pick (sv_formulas x) ((y0 + Z.of_nat k)%Z, 1%Z, 1%Z) None = Some (e, w) ->
+  match sv_end x with Some en => date_ltb en ((y0 + Z.of_nat k)%Z, m, 1%Z) = false | None => True end ->
+  lookup (v, month_of (y0 + Z.of_nat k) m) inp = None ->
+  sem (to_sys y0 ny s') pp inp v (month_of (y0 + Z.of_nat k) m)
+  = rmap (cast (to_var y0 ny v x)) (sem (to_sys y0 ny s) pp inp v (jan (y0 + Z.of_nat k))).
+Proof. exact annualised_spec_lemma. Qed.
+Print Assumptions annualised_spec.
+
+(** The same without any hypothesis on the rest of the system (other variables may be
+    annualised too, the system need not be ranked): with one more unit of fuel, every month
+    means what January of that year means in the derived system itself. *)
+Theorem annualised_months_equal_january : forall y0 ny s v x s' k m e w,
+  nth_error (s_vars s) v = Some x -> apply_var_mod s (Annualize v) = Ok s' ->
+  sv_unit x = Month -> (1 <= y0)%Z -> k < ny -> (2 <= m <= 12)%Z ->
+  pick (sv_formulas x) ((y0 + Z.of_nat k)%Z, m, 1%Z) None = Some (e, w) ->
+  match sv_end x with Some en => date_ltb en ((y0 + Z.of_nat k)%Z, m, 1%Z) = false | None => True end ->
+  forall pp inp fuel,
+  lookup (v, month_of (y0 + Z.of_nat k) m) inp = None ->
+  let sy' := to_sys y0 ny s' in
+  meaning (S fuel) sy' pp inp v (month_of (y0 + Z.of_nat k) m)
+  = rmap (cast (to_var y0 ny v (annualized x))) (meaning fuel sy' pp inp v (jan (y0 + Z.of_nat k))).
+Proof. exact annualised_months_lemma. Qed.
+Print Assumptions annualised_months_equal_january.
+
+(** annualize_variable, on the machine, under the stated condition: between two requests, when
+    the January value of v is in the cache and the month's is not, the machine answers the
+    January value.  (Without the condition it does not: F20, example [ex_f20] below.) *)
+Theorem annualised_machine_when_january_known : forall y0 ny s v x s' k m e w pp st fuel a,
+  nth_error (s_vars s) v = Some x -> apply_var_mod s (Annualize v) = Ok s' ->
+  sv_unit x = Month -> (1 <= y0)%Z -> k < ny -> (2 <= m <= 12)%Z ->
+  pick (sv_formulas x) ((y0 + Z.of_nat k)%Z, m, 1%Z) None = Some (e, w) ->
+  match sv_end x with Some en => date_ltb en ((y0 + Z.of_nat k)%Z, m, 1%Z) = false | None => True end ->
+  1 <= s_loops s ->
+  stack st = [] -> invalid st = [] ->
+  lookup (v, jan (y0 + Z.of_nat k)) (cache st) = Some a ->
+  lookup (v, month_of (y0 + Z.of_nat k) m) (cache st) = None ->
+  snd (calc (S (S fuel)) (to_sys y0 ny s') pp st v (month_of (y0 + Z.of_nat k) m))
+  = Ok (cast (to_var y0 ny v (annualized x)) a).
+Proof. exact annualised_machine_lemma. Qed.
+Print Assumptions annualised_machine_when_january_known.
+
+(** Reform.modify_parameters: at every date the reform reads the BASELINE's value overridden
+    by the declared updates in turn - [override f (start, stop, value) d] is [value] when
+    start <= d (and d <= stop when a stop is given), else [f d] ([updates_of k]: the updates
+    of parameter k); its variables are unchanged.  The baseline keeps its values
+    (derivation_frame). *)
+Theorem modified_parameters_from_date : forall w j ups w' e b eb,
+  apply_mod w j (ModifyParams ups) = Ok w' ->
+  nth_error (w_entries w) j = Some e -> e_base e = Some b -> nth_error (w_entries w) b = Some eb ->
+  exists e', nth_error (w_entries w') j = Some e'
+  /\ s_vars (e_sys e') = s_vars (e_sys e)
+  /\ forall k h, nth_error (s_params (e_sys eb)) k = Some h ->
+       exists h', nth_error (s_params (e_sys e')) k = Some h'
+                  /\ forall d, get_at h' d = fold_left override (updates_of k ups) (get_at h) d.
+Proof. exact modified_parameters_lemma. Qed.
+Print Assumptions modified_parameters_from_date.
+
+Theorem override_unfolds : forall (f : Z -> option Z) s e v d,
+  override f (s, e, v) d
+  = if ((s <=? d) && match e with Some e => (d <=? e) | None => true end)%Z then v else f d.
+Proof. reflexivity. Qed.
+Print Assumptions override_unfolds.
+
+(** the same updates made in place on the parameter tree a copy owns *)
+Theorem edited_parameters_from_date : forall s ups s',
+  apply_var_mod s (EditParams ups) = Ok s' ->
+  s_vars s' = s_vars s
+  /\ forall k h, nth_error (s_params s) k = Some h ->
+       exists h', nth_error (s_params s') k = Some h'
+                  /\ forall d, get_at h' d = fold_left override (updates_of k ups) (get_at h) d.
+Proof. exact edited_parameters_lemma. Qed.
+Print Assumptions edited_parameters_from_date.
+
+(** ** Non-vacuity *)
+
+Definition ex_pop : popu :=
+  {| grp := {| Group.g_entity := {| Group.e_key := "household"%string; Group.e_roles := []; Group.e_containing := [] |};
+               Group.g_count := 1; Group.g_ids := [0; 0]; Group.g_roles := [0; 0] |} |}.
+
+(** v0 input (month); v1 = v0 + month number, from 2019 v0 + 100 (month); p0 = 3, from 2018 4;
+    v2 = v1 + p0 (month) *)
+Definition ex_base : sys :=
+  {| vars := [ mk_var EPerson TInt Month None [] 0%Z false false;
+               mk_var EPerson TInt Month None
+                 [((1, 1, 1)%Z, EBin BAdd (EDep 0 PSame OPlain) (EField FMonth));
+                  ((2019, 1, 1)%Z, EBin BAdd (EDep 0 PSame OPlain) (EConst 100))] 5%Z false false;
+               mk_var EPerson TInt Month None [((1, 1, 1)%Z, EBin BAdd (EDep 1 PSame OPlain) (EParam 0))] 0%Z false false ];
+     params := [ [(ord (2018, 1, 1)%Z, Some 4%Z); (ord (2000, 1, 1)%Z, Some 3%Z)] ];
+     switches := []; max_loops := 1 |}.
+
+Definition ex_update : vdef :=
+  mk_vdef None None None None (Some 9%Z) [((2018, 6, 1)%Z, EConst 50%Z)].
+
+(** a reform of the base (annualise v1, new parameter value from mid 2018), a copy of the
+    reform in which v1 is then updated, a reform of the copy neutralising v2 *)
+Definition ex_ops : list dop :=
+  [ DReform 0 [Annualize 1; ModifyParams [(0, (ord (2018, 7, 1)%Z, None, Some 40%Z))]];
+    DClone 1; DMod 2 (UpdateVar 1 ex_update); DReform 2 [Neutralize 2] ].
+
+Definition ex_world : world := run_dops false (initial (of_sys ex_base)) ex_ops.
+Definition mar18 : period := month_of 2018 3.
+Definition ex_inputs : list request := [RSetInput 0 (jan 2018) [10; 20]%Z; RSetInput 0 mar18 [1; 2]%Z].
+
+Example ex_frame_hypotheses :
+  entities_bound (initial (of_sys ex_base)) /\ (forall o, In o ex_ops -> target_of o <> Some 0)
+  /\ length (w_entries ex_world) = 4.
+Proof.
+  split; [apply initial_bound|split; [|reflexivity]].
+  intros o [<-|[<-|[<-|[<-|[]]]]]; discriminate.
+Qed.
+
+(** the base answers v2 = v0 + 3 + 4 in March 2018; the reform answers the January value of
+    v1 (10 + 1, 20 + 1) plus the parameter *)
+Example ex_base_answer :
+  eval_fresh 1996 30 ex_world 0 ex_pop ex_inputs [RCalc 2 mar18]
+  = OL [ONone; ONone; OL [OZ 8; OZ 9]].
+Proof. vm_compute. reflexivity. Qed.
+Example ex_reform_answer :
+  eval_fresh 1996 30 ex_world 1 ex_pop ex_inputs [RCalc 1 (jan 2018); RCalc 2 mar18; RCalc 2 (month_of 2018 8)]
+  = OL [ONone; ONone; OL [OZ 11; OZ 21]; OL [OZ 15; OZ 25]; OL [OZ 51; OZ 61]].
+Proof. vm_compute. reflexivity. Qed.
+
+(** F20 in the model: on a fresh simulation March is asked before January and yields the
+    default 5; once January is known March yields the January value *)
+Example ex_f20 :
+  eval_fresh 1996 30 ex_world 1 ex_pop ex_inputs [RCalc 1 mar18; RCalc 1 (jan 2018); RCalc 1 mar18]
+  = OL [ONone; ONone; OL [OZ 5; OZ 5]; OL [OZ 11; OZ 21]; OL [OZ 11; OZ 21]].
+Proof. vm_compute. reflexivity. Qed.
+
+(** the meaning has no such order: March means January *)
+Example ex_annualised_meaning :
+  sem_in 1996 30 ex_world 1 ex_pop [((0, jan 2018), [10; 20]%Z)] 1 mar18 = Some (Ok [11; 21]%Z).
+Proof. vm_compute. reflexivity. Qed.
+
+Example ex_annualised_hypotheses :
+  exists x s' e w,
+    nth_error (s_vars (of_sys ex_base)) 1 = Some x /\ apply_var_mod (of_sys ex_base) (Annualize 1) = Ok s'
+    /\ ranked (to_sys 1996 30 (of_sys ex_base)) = true /\ sv_unit x = Month
+    /\ has_wrapped (sv_formulas x) = false /\ sv_neutral x = false
+    /\ pick (sv_formulas x) (2018, 1, 1)%Z None = Some (e, w).
+Proof. do 4 eexists. repeat split; vm_compute; reflexivity. Qed.
+
+(** the update of v1 in the copy: the formula of 0001 (annualised) is kept, the one of 2019
+    is dropped, default 9, still a month variable of persons *)
+Example ex_update_result :
+  option_map (fun e => option_map look_var (nth_error (s_vars (e_sys e)) 1)) (nth_error (w_entries ex_world) 2)
+  = Some (Some (OL [ OL [odate (1, 1, 1)%Z; odate (2018, 6, 1)%Z]; OZ 3; OB false; OZ 9; OZ 0; ONone; OZ 0 ])).
+Proof. vm_compute. reflexivity. Qed.
+
+(** the chained reform neutralises v2: default 0 whatever the inputs *)
+Example ex_neutralised_answer :
+  eval_fresh 1996 30 ex_world 3 ex_pop (ex_inputs ++ [RSetInput 2 mar18 [7; 7]%Z]) [RCalc 2 mar18]
+  = OL [ONone; ONone; ONone; OL [OZ 0; OZ 0]].
+Proof. vm_compute. reflexivity. Qed.
+
+(** parameters: the reform reads 40 from July 2018, the base still 4 *)
+Example ex_parameters :
+  look_params (of_sys ex_base) [ord (2018, 6, 30)%Z; ord (2018, 7, 1)%Z] = OL [OL [OZ 4; OZ 4]]
+  /\ option_map (fun s => look_params s [ord (2018, 6, 30)%Z; ord (2018, 7, 1)%Z]) (sys_at ex_world 1)
+     = Some (OL [OL [OZ 4; OZ 40]]).
+Proof. split; vm_compute; reflexivity. Qed.
